@@ -26,7 +26,8 @@ func (d *verifDV) BytesRead() uint64 { return 0 }
 type verifPt struct{ lon, lat float64 }
 
 // the candidate points of the document: one inside every query shape below, two outside
-var verifPts = []verifPt{{10.5, 10.5}, {-170, -80}, {50, 50}}
+// (the fourth lies just beyond the date line: inside only the circle around (179.9, 10))
+var verifPts = []verifPt{{10.5, 10.5}, {-170, -80}, {50, 50}, {-179.95, 10}}
 
 // verifDocTerms builds the doc values of one document holding n points (each an arbitrary choice of
 // the candidates) in arbitrary order; every term's first byte (the shift marker) is an arbitrary byte,
@@ -51,7 +52,7 @@ func verifDocTerms(n int) (terms [][]byte, full []bool, which []int) {
 // and mixture of points and coarser-precision terms in the document's values.
 func VerifH_C18_Filters() {
 	n := rt.Param("terms", 2)
-	kind := rt.Choice("shape", 3)
+	kind := rt.Choice("shape", 4)
 	terms, full, which := verifDocTerms(n)
 	dv := &verifDV{terms: terms}
 	d := &search.DocumentMatch{IndexInternalID: index.IndexInternalID("d")}
@@ -72,8 +73,16 @@ func VerifH_C18_Filters() {
 	case 2:
 		f = buildPolygonFilter(ctx, dv, "loc", []geo.Point{{Lon: 10, Lat: 10}, {Lon: 11, Lat: 10}, {Lon: 11, Lat: 11}, {Lon: 10, Lat: 11}, {Lon: 10, Lat: 10}})
 		inside[0] = true
+	case 3:
+		// a circle of 50 km around a point 0.1 degrees west of the date line: reaches across it
+		f = buildDistFilter(ctx, dv, 179.9, 10, 50000)
+		inside[3] = true
 	}
-	rt.Assert(inside[0] && !inside[1] && !inside[2], "harness: candidate points are placed as intended")
+	if kind == 3 {
+		rt.Assert(!inside[0] && !inside[1] && !inside[2] && inside[3], "harness: candidate points are placed as intended")
+	} else {
+		rt.Assert(inside[0] && !inside[1] && !inside[2] && !inside[3], "harness: candidate points are placed as intended")
+	}
 	got := f(nil, d)
 	want := false
 	sawTwoFull := false
@@ -90,6 +99,7 @@ func VerifH_C18_Filters() {
 	rt.Assert(got == want, "a document is accepted iff one of its points lies in the shape")
 	rt.Cover(sawTwoFull && want && which[0] != 0, "inside-point-after-outside-point")
 	rt.Cover(nfull == 0, "no-full-precision-term")
+	rt.Cover(kind == 3 && want, "point-across-the-date-line-inside-the-circle")
 }
 
 type verifBox struct{ minLon, minLat, maxLon, maxLat float64 }
